@@ -259,6 +259,9 @@ def run(ctx, rep):
             else:
                 rep.ok("C12.R2", inst, fsite(f), "same guards, return constants and read/written bytes as in the shipped configuration", cfg=cn)
         ctx.release(cfg)
+    from . import affine_rules
+    naff = affine_rules.check_configs(ctx, rep, cfgs)
+    rep.floor("C12.R5", "block functions whose linear layer was compared with the shipped configuration", naff, 20)
     rep.floor("C12.R1", "unit x configuration gcc witnesses", len(res), 18 * 2)
     rep.floor("C12.R2", "function summaries compared across configurations", ncmp, 300)
     rep.floor("C12.R3", "permutation helpers compared across configurations", nrout, 20)
